@@ -362,3 +362,4 @@ LEVEL_NOTE = {
     "*": "Trusts refipfix (own RFC 7011 codec, stdlib only), the Go runtime's bounds checks surfacing as panics, and the generator's coverage as reported in the evidence.",
 }
 NOT_APPLICABLE = {}
+PROPS["C20"]["checker_without_race"] = True
